@@ -146,7 +146,7 @@ func (r ValueRange) NumberLowerBound() (min Value, inclusive bool) {
 		}
 		return rfn.min, rfn.minInc
 	}
-	return NegativeInfinity, false
+	return NegativeInfinity, true
 }
 
 // NumberUpperBound returns information about the upper bound of the range of
